@@ -27,22 +27,22 @@ func (d *D) Property() string { return "C14" }
 func (d *D) Level() string    { return "fault_enumeration" }
 
 type tierCfg struct {
-	gen, corpus, probes, endless int
-	budget                       int
-	exhaustMax                   int
-	sample                       int
+	gen, corpus, probes, endless, l2 int
+	budget                           int
+	exhaustMax                       int
+	sample                           int
 }
 
 func cfg(tier string) tierCfg {
 	if tier == "thorough" {
-		return tierCfg{gen: 12000, corpus: 382 * 4, probes: 13 * 6, endless: 300, budget: 200000, exhaustMax: 1500, sample: 400}
+		return tierCfg{gen: 12000, corpus: 382 * 4, probes: 13 * 6, endless: 300, l2: 3000, budget: 200000, exhaustMax: 1500, sample: 400}
 	}
-	return tierCfg{gen: 260, corpus: 120, probes: 13 * 2, endless: 30, budget: 20000, exhaustMax: 400, sample: 200}
+	return tierCfg{gen: 260, corpus: 120, probes: 13 * 2, endless: 30, l2: 48, budget: 20000, exhaustMax: 400, sample: 200}
 }
 
 func (d *D) Count(tier string) int {
 	c := cfg(tier)
-	return c.gen + c.corpus + c.probes + c.endless
+	return c.gen + c.corpus + c.probes + c.endless + c.l2
 }
 
 var probeNs = []int{5, 40, 3, 17, 64, 200}
@@ -93,6 +93,10 @@ func (d *D) Base(idx int, ctx *core.Ctx) (*core.Scenario, *work.Probe) {
 
 // Regen implements core.Driver.
 func (d *D) Regen(idx int, ctx *core.Ctx) *core.Scenario {
+	c := cfg(ctx.Tier)
+	if idx >= c.gen+c.corpus+c.probes+c.endless {
+		return l2Base(idx, ctx)
+	}
 	sc, _ := d.Base(idx, ctx)
 	return sc
 }
@@ -316,6 +320,10 @@ func faultPoints(r *prng.R, ref *core.Result, c tierCfg) ([]int, bool) {
 // RunItem checks one program at all chosen fault points.
 func (d *D) RunItem(idx int, ctx *core.Ctx) {
 	c := cfg(ctx.Tier)
+	if idx >= c.gen+c.corpus+c.probes+c.endless {
+		d.runL2Item(idx, ctx)
+		return
+	}
 	sc, probe := d.Base(idx, ctx)
 	if sc == nil {
 		return
@@ -395,6 +403,9 @@ func (d *D) RunItem(idx int, ctx *core.Ctx) {
 
 // Check re-executes one explicit scenario (replay, minimisation).
 func (d *D) Check(sc *core.Scenario) *core.Violation {
+	if sc.Level == "L2" {
+		return d.checkL2(sc)
+	}
 	budget := budgetFor(sc)
 	if strings.HasPrefix(sc.Kind, "probe:") && len(sc.Faults) == 0 {
 		name := strings.TrimPrefix(sc.Kind, "probe:")
@@ -437,6 +448,9 @@ func (d *D) Check(sc *core.Scenario) *core.Violation {
 // Retarget re-aims the stop at the last fault point and at the fault points
 // adjacent to each effect of the shrunk program.
 func (d *D) Retarget(c *core.Scenario) []*core.Scenario {
+	if c.Level == "L2" {
+		return nil
+	}
 	base := c.Clone()
 	base.Faults = nil
 	ref := core.RunL1(base, core.L1Opts{Budget: budgetFor(c)})
@@ -488,12 +502,15 @@ func (d *D) Describe(ev *core.Evidence, st *core.Stats) {
 	ev.Coverage["exhaustive"] = false
 	ev.Coverage["fault_points_total"] = c["fault_points_total"]
 	ev.Coverage["fault_points_hit"] = c["fault_points_hit"]
-	ev.Coverage["faults_injected"] = map[string]int64{"stop@yield": c["stop@yield"], "stop@sleep": c["stop@sleep"], "stop@read": c["stop@read"], "stop@idle": c["stop@idle"], "stop-in-handler": c["stop-in-handler"]}
+	ev.Coverage["faults_injected"] = map[string]int64{"stop@yield": c["stop@yield"], "stop@sleep": c["stop@sleep"], "stop@read": c["stop@read"], "stop@idle": c["stop@idle"], "stop-in-handler": c["stop-in-handler"],
+		"L2 stop-click during forced yield": c["stop-click@forced-yield"], "L2 stop-click during sleep": c["stop-click@sleep"], "L2 stop-click during read poll": c["stop-click@read-poll"], "L2 stop-click while idle": c["stop-click@idle"]}
+	ev.Coverage["l2"] = map[string]int64{"reference_runs": c["l2_reference_runs"], "stop_runs": c["l2_stop_runs"]}
 	ev.Coverage["probes"] = map[string]int64{"raise_at_last_fault_point": c["probe_raise_at_last_fault_point"], "raise_adjacent_to_effect": c["probe_raise_adjacent_to_effect"],
 		"endless_program_stopped": c["probe_endless_program_stopped"], "interruptibility_probe_runs": c["probe_runs"]}
 	ev.Coverage["simulated_time_s"] = float64(c["simulated_ns"]) / 1e9
 	ev.Coverage["steps"] = c["steps"]
-	ev.Coverage["components"] = map[string][]string{"real": {"lexer", "parser", "evaluator", "builtins"}, "stub": {"platform (SimPlatform: records effects, scripted input, virtual clock)", "event loop (driver mirrors pkg/wasm handleEvents)"}}
+	ev.Coverage["components"] = map[string][]string{"real": {"lexer", "parser", "evaluator", "builtins"}, "real at L2 only": {"pkg/wasm: main, evaluate, handleEvents, stop, on* exports, alloc/getString, jsPlatform, sleepingYielder incl. polled Read"},
+		"stub": {"L1: platform (SimPlatform: records effects, scripted input, virtual clock) and event loop (driver mirrors pkg/wasm handleEvents)", "L2: the browser / JS side (simjs model of frontend/play/index.js), decodePtrLen (handle table), clock"}}
 	ev.Assumptions = []string{
 		"a platform raises Stopped only while it has control: inside Yield, Sleep, a blocked Read, or while the evaluator is idle",
 		"the trailing test summary is recognised as a single Print containing the word 'test'; its text is not inspected",
